@@ -115,6 +115,15 @@ def run_history(cf, steps, pc_id, M, from_decoded=False, lazy=False):
                 current[kw] = v
             if not data_first:
                 msg.data_set = stp['data']
+            if stp['data'] and (i + pc_id + M) % 5 == 2:
+                # the application keeps the data set in a file-like object and sends a COPY of the message (copy,
+                # deep copy or a pickle round trip - a work queue between threads or processes does that)
+                import copy
+                import io
+                import pickle
+                msg.data_set = io.BytesIO(stp['data'])
+                how = (i + M) % 3
+                msg = copy.copy(msg) if how == 0 else copy.deepcopy(msg) if how == 1 else pickle.loads(pickle.dumps(msg))
             if lazy:
                 assoc.send(msg, pc_id)
                 snapshots.append((dict(current), bool(stp['data'])))
